@@ -62,6 +62,11 @@ def plan(tier):
         orders.append(o)
     for o in orders:
         cases.append({"spec": {"level": "1.5", "images": images_for([("HH", None), ("HV", None)])}, "summary_lines": [l for s in o for l in secs[s]], "label": f"section order {o}"})
+    # index files next to some of the images only: every subset of the images of 3- and 4-image products
+    for level, names in (("1.1", [("HH", "F1"), ("HH", "F2"), ("HV", "F1"), ("HV", "F2")]), ("1.5", [("HH", None), ("HV", None), ("VV", None)])):
+        for mask in range(1, 2 ** len(names)):
+            subset = [i for i in range(len(names)) if mask >> i & 1]
+            cases.append({"spec": {"level": level, "images": images_for(names)}, "adjacent_for": subset, "label": f"{level} {len(names)} images, index files next to images {subset}"})
     # interleaved sections (lines of different sections alternate)
     inter = [l for group in itertools.zip_longest(*secs.values()) for l in group if l]
     cases.append({"spec": {"level": "1.5", "images": images_for([("HH", None), ("HV", None)])}, "summary_lines": inter, "label": "sections interleaved line by line"})
@@ -73,7 +78,22 @@ def execute(case):
     if case.get("summary_lines"):
         spec = dict(spec)
         spec["summary"] = {**spec["summary"], "lines": case["summary_lines"]}
-    out = treecheck.check_spec(spec, ignore=IGN)
+    if "adjacent_for" in case:
+        # the product directory also holds <image>.index files (written by the cache tool) for some of its images
+        from mc import cachelab
+
+        env.import_lib()
+        env.wipe_cache()
+        names = synth.file_names(spec)["img"]
+
+        def prepare(prod):
+            for i in case["adjacent_for"]:
+                if cachelab.run_cli(prod.dir / names[i]) != 0:
+                    raise core.HarnessError("cache tool failed")
+
+        out = treecheck.check_spec(spec, ignore=IGN, kind="local", prepare=prepare)
+    else:
+        out = treecheck.check_spec(spec, ignore=IGN)
     fails = out["failures"]
     act = out.get("actual", {})
     for k in act:
@@ -153,7 +173,7 @@ def run(res, tier, seed):
     res.rule = (
         "k=1: all 24 F-names, 20 B-names and scan numbers 0,6..9; 7-scan and 0..9 scan products; k=2: all ordered pairs of the 24 names [quick: every 4th + 40 same-polarisation pairs];"
         " k=3..8: all rotations + reversal of one combination and a B-method set; 3 levels x map projection 0/1 with 4 images;"
-        " section orders: 8 rotations + 28 transpositions + interleaving through open_alos2, all 8! [quick: first 5040] through"
+        " index files next to every non-empty subset of the images of a 4- and a 3-image product;" " section orders: 8 rotations + 28 transpositions + interleaving through open_alos2, all 8! [quick: first 5040] through"
         " summary.open_summary. Images differ in size and carry their id in the pixels; the whole tree is compared."
     )
     res.assumptions = ["B- and F-method scans of the same number are not mixed in one product (group names carry only the scan number)"]
